@@ -667,3 +667,16 @@ M('c11-q-left-among-params', 'C11', 'R13', MT, "q = float(params.pop('q'))", "q 
 # negative controls verified by hand with --root (silent): `params = {k: v for k, v in params.items() if k != 'q'}` (q kept aside);
 # `q = float(params['q'])` + `del params['q']`; `if params.get('q') is None: return cls(..., params=params)`;
 # `dict(itertools.islice(params.items(), 50))`
+
+# R14 an override of a mutating method of the mapping protocol still performs the change (sa-am01481)
+HF = 'falcon/media/handlers.py'
+M('c11-ior-is-a-no-op', 'C11', 'R14', HF, "        self.update(other)\n        return self\n", "        return self\n")
+M('c11-ior-merges-into-a-copy', 'C11', 'R14', HF, "        self.update(other)\n        return self\n",
+  "        merged = dict(self.data)\n        merged.update(other)\n        return self\n")
+M('c11-delitem-only-clears-the-cache', 'C11', 'R14', HF,
+  "    def __delitem__(self, key: str) -> None:\n        super().__delitem__(key)\n",
+  "    def __delitem__(self, key: str) -> None:\n")
+M('c11-setitem-skipped-for-known-instance-flag', 'C11', 'R14', HF,
+  "        super().__setitem__(key, value)\n", "        if self._resolve is None:\n            super().__setitem__(key, value)\n")
+# negative controls (exit 0): `if other: self.update(other)`; `for k, v in dict(other).items(): self[k] = v`; `self.data.update(other)` followed by
+# cache_clear(); `UserDict.update(self, other)`; `if not other: return self` in front
